@@ -178,4 +178,22 @@ theorem wait_bound_le_timeout (w : World) (si : Nat) (s : Server) (hs : getSrv w
   · exact capWait_le _ _ ht
   · exact capWait_le _ _ ht
 
+/-! ### a late reply -/
+
+open Rsp.World in
+/-- **C12 (a late reply is ignored).** once a request was abandoned (or answered) its identifier holds nothing: whatever arrives
+    under it afterwards - any octets at all that parse as a message - is neither delivered nor REFUSED (the return value 1 is what
+    keeps a stream connection up); the only trace it leaves is that the server is seen to be alive (unanswered count back to 0) -/
+theorem late_reply_ignored (w : World) (si : Nat) (buf : Bytes) (s0 : Server) (m : Radmsg.Msg)
+    (hs : getSrv w si = some s0) (hempty : (slotOf s0 (buf.getD 1 0).toNat).rq = none)
+    (hp : Radmsg.parse w.H buf (some s0.conf.secret) none = some m) :
+    replyh w si buf = (updSrv w si fun s => { s with lost := 0 }, 1) := by
+  unfold replyh
+  simp only [hs, hempty, Option.bind]
+  have hH : (updSrv w si fun s => { s with lost := 0 }).H = w.H := by
+    unfold updSrv; split <;> rfl
+  rw [hH, hp]
+  simp only
+  split <;> rfl
+
 end Rsp.Props.C12
